@@ -1,13 +1,14 @@
 SPECIFICATION MCSpec
 CONSTANTS
   Cap = 2
-  SegCap = 2
+  SegCaps = {2}
   FixStale = TRUE
   MaxSets = 4
   MaxOps = 6
   MaxFails = 2
   MaxFaults = 2
   UseKeys = {"k1", "k2", "k3"}
+  MaxHand = 0
   UseClients = {"c1"}
 INVARIANTS TypeOK
 PROPERTIES StepsOK
